@@ -957,3 +957,276 @@ Lemma code_is_expr ps t tr : parse t = Some tr -> all_nodes (node_ok ps) tr ->
 Proof.
   intros Hp O. destruct (parse_sound _ _ Hp) as [-> W]. rewrite str_flatten by exact W. now apply parse_expr_pp.
 Qed.
+
+(* ------------------------------------------------------------------ renameArguments *)
+Section DictFacts.
+  Context {A : Type}.
+  Lemma dget_dset_same k (v : A) m : dget k (dset k v m) = Some v.
+  Proof.
+    induction m as [|[k' v'] m IH]; cbn; [now rewrite String.eqb_refl|].
+    destruct (String.eqb k k') eqn:E; cbn; rewrite E; [reflexivity|exact IH].
+  Qed.
+  Lemma dget_dset_other k k' (v : A) m : k <> k' -> dget k (dset k' v m) = dget k m.
+  Proof.
+    intro H. induction m as [|[k2 v2] m IH]; cbn.
+    - apply String.eqb_neq in H. now rewrite H.
+    - destruct (String.eqb k' k2) eqn:E; cbn.
+      + apply String.eqb_eq in E. subst k2. apply String.eqb_neq in H. now rewrite H.
+      + destruct (String.eqb k k2); [reflexivity|exact IH].
+  Qed.
+  Lemma dget_ddel_other k k' (m : list (string * A)) : k <> k' -> dget k (ddel k' m) = dget k m.
+  Proof.
+    intro H. induction m as [|[k2 v2] m IH]; cbn; [reflexivity|].
+    destruct (String.eqb k' k2) eqn:E; cbn.
+    - apply String.eqb_eq in E. subst k2. apply String.eqb_neq in H. now rewrite H.
+    - destruct (String.eqb k k2); [reflexivity|exact IH].
+  Qed.
+End DictFacts.
+
+Lemma set_nth_length {A} i (x : A) l : List.length (set_nth i x l) = List.length l.
+Proof. revert i; induction l as [|y l IH]; intros [|i]; cbn; auto. Qed.
+
+Lemma nth_error_set_nth {A} (x : A) l : forall i j,
+  nth_error (set_nth i x l) j =
+  if Nat.eqb j i then (if Nat.ltb i (List.length l) then Some x else None) else nth_error l j.
+Proof.
+  induction l as [|y l IH]; intros i j.
+  - destruct i, j; cbn; try reflexivity. destruct (Nat.eqb j i); reflexivity.
+  - destruct i as [|i], j as [|j]; cbn [set_nth nth_error]; try reflexivity. rewrite IH. reflexivity.
+Qed.
+
+Lemma nth_error_ext {A} (l l' : list A) : (forall j, nth_error l j = nth_error l' j) -> l = l'.
+Proof.
+  revert l'; induction l as [|x l IH]; intros [|y l'] H; try reflexivity;
+    try (specialize (H 0); discriminate).
+  f_equal; [specialize (H 0); now injection H|]. apply IH. intro j. exact (H (S j)).
+Qed.
+
+Definition new_name (kargs : list (string * string)) (a : string) : string :=
+  match dget a kargs with Some n => n | None => a end.
+
+Lemma dget_In_snd {A} k (v : A) m : dget k m = Some v -> In v (map snd m).
+Proof.
+  induction m as [|[k' v'] m IH]; cbn; [discriminate|].
+  destruct (String.eqb k k'); [intro H; injection H as ->; now left|right; auto].
+Qed.
+
+Lemma dget_values_distinct (m : list (string * string)) : forall k1 k2 v1 v2,
+  NoDup (map snd m) -> k1 <> k2 -> dget k1 m = Some v1 -> dget k2 m = Some v2 -> v1 <> v2.
+Proof.
+  induction m as [|[k v] m IH]; intros k1 k2 v1 v2 ND Hk H1 H2; [discriminate|].
+  cbn in ND, H1, H2. inversion ND as [|? ? Hnin ND']; subst.
+  destruct (String.eqb_spec k1 k) as [E1|E1], (String.eqb_spec k2 k) as [E2|E2].
+  - congruence.
+  - injection H1 as H1. subst v1. intro E. subst v2. apply Hnin. eapply dget_In_snd; eauto.
+  - injection H2 as H2. subst v2. intro E. subst v1. apply Hnin. eapply dget_In_snd; eauto.
+  - exact (IH k1 k2 v1 v2 ND' Hk H1 H2).
+Qed.
+
+Section Rename.
+  Variable kargs : list (string * string).
+  Variable ps0 : pset.
+  Notation args0 := (ps_arguments ps0).
+  Hypothesis ND0 : NoDup args0.
+  Hypothesis NDk : NoDup (map snd kargs).
+  Hypothesis fresh : forall n, In n (map snd kargs) -> ~ In n args0.
+
+  Definition arg_entries (ps : pset) : Prop :=
+    forall j name, nth_error (ps_arguments ps) j = Some name ->
+                   exists r, dget name (ps_mapping ps) = Some (NArg j r).
+
+  Definition Inv (i : nat) (ps : pset) : Prop :=
+    (forall j, nth_error (ps_arguments ps) j =
+               if Nat.ltb j i then option_map (new_name kargs) (nth_error args0 j) else nth_error args0 j) /\
+    ps_argvalue ps = ps_arguments ps /\
+    arg_entries ps /\
+    (forall k, ~ In k args0 -> ~ In k (map snd kargs) -> dget k (ps_mapping ps) = dget k (ps_mapping ps0)).
+
+  Lemma new_name_inj a b : In a args0 -> In b args0 -> a <> b -> new_name kargs a <> new_name kargs b.
+  Proof.
+    intros Ha Hb Hab. unfold new_name.
+    destruct (dget a kargs) as [na|] eqn:Ea, (dget b kargs) as [nb|] eqn:Eb.
+    - eapply dget_values_distinct; eauto.
+    - intro; subst. eapply fresh; [eapply dget_In_snd; eauto|exact Hb].
+    - intro; subst. eapply fresh; [eapply dget_In_snd; eauto|exact Ha].
+    - exact Hab.
+  Qed.
+
+  Lemma inv_args_length i ps : Inv i ps -> List.length (ps_arguments ps) = List.length args0.
+  Proof.
+    intros (Ha & _). 
+    destruct (Nat.lt_trichotomy (List.length (ps_arguments ps)) (List.length args0)) as [L|[L|L]]; [|exact L|].
+    - exfalso. specialize (Ha (List.length (ps_arguments ps))).
+      rewrite (proj2 (nth_error_None _ _) (Nat.le_refl _)) in Ha.
+      destruct (nth_error args0 (List.length (ps_arguments ps))) eqn:E;
+        [|apply nth_error_None in E; lia]. destruct (Nat.ltb _ i); discriminate.
+    - exfalso. specialize (Ha (List.length args0)).
+      rewrite (proj2 (nth_error_None args0 _) (Nat.le_refl _)) in Ha.
+      destruct (nth_error (ps_arguments ps) (List.length args0)) eqn:E;
+        [|apply nth_error_None in E; lia]. destruct (Nat.ltb _ i); discriminate.
+  Qed.
+
+  Lemma rename_loop_inv : forall n i ps,
+    i + n = List.length args0 -> Inv i ps ->
+    exists ps', rename_loop kargs n i ps = Some ps' /\ Inv (List.length args0) ps'.
+  Proof.
+    induction n as [|n IH]; intros i ps Hin HI.
+    - exists ps. split; [reflexivity|]. now replace (List.length args0) with i by lia.
+    - pose proof (inv_args_length i ps HI) as Hlen.
+      destruct HI as (Ha & Hv & He & Ho). cbn [rename_loop].
+      assert (i < List.length args0) as Hi by lia.
+      destruct (nth_error args0 i) as [old|] eqn:Eold; [|apply nth_error_None in Eold; lia].
+      assert (nth_error (ps_arguments ps) i = Some old) as Eold'.
+      { rewrite Ha, Nat.ltb_irrefl. exact Eold. }
+      rewrite (nth_error_nth _ _ _ Eold').
+      destruct (dget old kargs) as [new|] eqn:Ek.
+      + (* renamed *)
+        destruct (He i old Eold') as (r & Hm). rewrite Hm.
+        assert (Hnew_in : In new (map snd kargs)) by (eapply dget_In_snd; eauto).
+        assert (Hnew_old : new <> old).
+        { intro; subst. eapply fresh; eauto. eapply nth_error_In; eauto. }
+        apply IH; [lia|]. repeat split; cbn [ps_arguments ps_argvalue ps_mapping].
+        * intro j. rewrite nth_error_set_nth, Hlen, Ha.
+          destruct (Nat.eqb_spec j i) as [->|Hji].
+          -- destruct (Nat.ltb_spec i (List.length args0)); [|lia].
+             destruct (Nat.ltb_spec i (S i)); [|lia]. rewrite Eold. cbn. unfold new_name. now rewrite Ek.
+          -- destruct (Nat.ltb_spec j i), (Nat.ltb_spec j (S i)); try reflexivity; lia.
+        * now rewrite Hv.
+        * intros j name Hj. cbn [ps_arguments ps_mapping] in Hj |- *. rewrite nth_error_set_nth, Hlen in Hj.
+          destruct (Nat.eqb_spec j i) as [->|Hji].
+          -- destruct (Nat.ltb_spec i (List.length args0)); [|lia]. injection Hj as <-.
+             exists r. rewrite dget_ddel_other by exact Hnew_old. apply dget_dset_same.
+          -- destruct (He j name Hj) as (r' & Hm'). exists r'.
+             assert (name <> old).
+             { intro; subst. rewrite Ha in Hj, Eold'.
+               assert (In old args0) by (eapply nth_error_In; eauto).
+               (* both positions hold [old] in the current list: contradiction with injectivity *)
+               destruct (Nat.ltb_spec j i) as [Lj|Lj]; rewrite Nat.ltb_irrefl in Eold'.
+               - destruct (nth_error args0 j) as [aj|] eqn:Eaj; [|discriminate]. cbn in Hj. injection Hj as Hj.
+                 assert (aj <> old).
+                 { intro; subst. apply Hji. eapply (proj1 (NoDup_nth_error args0) ND0); [|congruence].
+                   apply nth_error_Some. congruence. }
+                 unfold new_name in Hj. destruct (dget aj kargs) eqn:Eaj'.
+                 + subst. eapply fresh; [eapply dget_In_snd; eauto|exact H].
+                 + contradiction.
+               - apply Hji. eapply (proj1 (NoDup_nth_error args0) ND0); [|congruence].
+                 apply nth_error_Some. congruence. }
+             assert (name <> new).
+             { intro; subst. rewrite Ha in Hj.
+               destruct (Nat.ltb_spec j i) as [Lj|Lj].
+               - destruct (nth_error args0 j) as [aj|] eqn:Eaj; [|discriminate]. cbn in Hj. injection Hj as Hj.
+                 assert (aj <> old).
+                 { intro; subst. apply Hji. eapply (proj1 (NoDup_nth_error args0) ND0); [|congruence].
+                   apply nth_error_Some. congruence. }
+                 unfold new_name in Hj. destruct (dget aj kargs) eqn:Eaj'.
+                 + subst. eapply (dget_values_distinct kargs aj old); eauto.
+                 + subst. eapply fresh; [exact Hnew_in|]. eapply nth_error_In; eauto.
+               - eapply fresh; [exact Hnew_in|]. eapply nth_error_In; eauto. }
+             rewrite dget_ddel_other, dget_dset_other by assumption. exact Hm'.
+        * intros k Hk1 Hk2.
+          assert (k <> old) by (intro; subst; apply Hk1; eapply nth_error_In; eauto).
+          assert (k <> new) by (intro; subst; contradiction).
+          rewrite dget_ddel_other, dget_dset_other by assumption. now apply Ho.
+      + (* not renamed *)
+        apply IH; [lia|]. repeat split; try assumption.
+        intro j. rewrite Ha.
+        destruct (Nat.ltb_spec j i), (Nat.ltb_spec j (S i)); try reflexivity; try lia.
+        assert (j = i) by lia. subst j. rewrite Eold. cbn. unfold new_name. now rewrite Ek.
+  Qed.
+
+  (* renaming to fresh, pairwise distinct names: the call succeeds, pset.arguments is renamed pointwise,
+     every argument terminal's value is its new name, the argument terminals sit under their new names in
+     the mapping, and every other entry of the mapping is untouched *)
+  Theorem rename_fresh :
+    ps_argvalue ps0 = args0 -> arg_entries ps0 ->
+    exists ps', rename kargs ps0 = Some ps' /\
+      ps_arguments ps' = map (new_name kargs) args0 /\
+      ps_argvalue ps' = ps_arguments ps' /\
+      NoDup (ps_arguments ps') /\
+      arg_entries ps' /\
+      (forall k, ~ In k args0 -> ~ In k (map snd kargs) -> dget k (ps_mapping ps') = dget k (ps_mapping ps0)).
+  Proof.
+    intros Hv He. unfold rename.
+    destruct (rename_loop_inv (List.length args0) 0 ps0 eq_refl) as (ps' & Hr & Ha & Hv' & He' & Ho').
+    { repeat split; auto. }
+    exists ps'. split; [exact Hr|].
+    assert (ps_arguments ps' = map (new_name kargs) args0) as Hargs.
+    { apply nth_error_ext. intro j. rewrite Ha, nth_error_map.
+      destruct (Nat.ltb_spec j (List.length args0)) as [L|L]; [reflexivity|].
+      now rewrite (proj2 (nth_error_None args0 j) L). }
+    repeat split; auto.
+    rewrite Hargs. clear - ND0 NDk fresh. 
+    assert (forall l, NoDup l -> incl l args0 -> NoDup (map (new_name kargs) l)) as H.
+    { induction l as [|a l IH]; intros ND Hi; cbn; constructor.
+      - inversion ND; subst. intro Hin. apply in_map_iff in Hin as (b & Hb & Hbl).
+        symmetry in Hb. revert Hb. apply new_name_inj; [apply Hi; now left|apply Hi; now right|].
+        intro; subst; contradiction.
+      - inversion ND; subst. apply IH; [assumption|]. intros x Hx. apply Hi. now right. }
+    apply H; [exact ND0|apply incl_refl].
+  Qed.
+End Rename.
+
+Lemma nodupb_of_NoDup l : NoDup l -> nodupb l = true.
+Proof.
+  induction 1 as [|x l Hn _ IH]; [reflexivity|]. cbn. rewrite IH, andb_true_r. apply negb_true_iff.
+  destruct (existsb (String.eqb x) l) eqn:E; [|reflexivity]. exfalso.
+  apply existsb_exists in E as (y & Hy & Exy). apply String.eqb_eq in Exy. now subst.
+Qed.
+
+(* names a tree mentions besides its arguments *)
+Definition avoids (n : string) (nd : node) : Prop :=
+  match nd with
+  | NPrim name _ _ => name <> n
+  | NSym name _ => name <> n
+  | _ => True
+  end.
+
+(* "(possibly renamed) arguments": after renameArguments to fresh identifiers the same tree object still
+   satisfies the hypotheses of compile_sem, hence compiles to the same function of the actual arguments *)
+Theorem rename_same_function {V} (cval : cst -> option V) kargs ps0 ps' ctx t tr actuals :
+  parse t = Some tr -> pset_ok ps0 -> arg_entries ps0 ->
+  all_nodes (node_ok ps0) tr -> all_nodes (name_fresh (ps_arguments ps0)) tr ->
+  NoDup (map snd kargs) -> (forall n, In n (map snd kargs) -> ~ In n (ps_arguments ps0)) ->
+  (forall n, In n (map snd kargs) -> is_ident n = true /\ all_nodes (avoids n) tr) ->
+  rename kargs ps0 = Some ps' ->
+  pset_ok ps' /\
+  run_compiled cval (compile cval ps' ctx t) actuals = run_compiled cval (compile cval ps0 ctx t) actuals.
+Proof.
+  intros Hp (Hav & Hid & Hnd) He O NF NDk Fr Hnew Hr.
+  destruct (rename_fresh kargs ps0 (nodupb_NoDup _ Hnd) NDk Fr Hav He)
+    as (ps2 & Hr2 & Hargs & Hv2 & ND2 & He2 & _).
+  rewrite Hr in Hr2. injection Hr2 as <-.
+  assert (forall a, In a (ps_arguments ps0) -> is_ident (new_name kargs a) = true) as Hidn.
+  { intros a Ha. unfold new_name. destruct (dget a kargs) eqn:E.
+    - apply Hnew. eapply dget_In_snd; eauto.
+    - rewrite forallb_forall in Hid. now apply Hid. }
+  assert (pset_ok ps') as PO'.
+  { repeat split; [exact Hv2| |now apply nodupb_of_NoDup].
+    rewrite Hargs. apply forallb_forall. intros x Hx. apply in_map_iff in Hx as (a & <- & Ha). now apply Hidn. }
+  split; [exact PO'|].
+  destruct (parse_sound _ _ Hp) as [-> W].
+  assert (all_nodes (node_ok ps') tr) as O'.
+  { unfold all_nodes in *. rewrite Forall_forall in *. intros nd Hin.
+    specialize (O nd Hin). specialize (NF nd Hin). destruct nd; cbn in *; try assumption.
+    rewrite Hv2, Hargs. destruct (nth_error (ps_arguments ps0) j) as [a|] eqn:Ea; [|apply nth_error_None in Ea; lia].
+    rewrite (nth_error_nth (map (new_name kargs) (ps_arguments ps0)) j "" (map_nth_error _ _ _ Ea)).
+    apply Hidn. eapply nth_error_In; eauto. }
+  assert (all_nodes (name_fresh (ps_arguments ps')) tr) as NF'.
+  { unfold all_nodes in *. rewrite Forall_forall in *. intros nd Hin.
+    specialize (NF nd Hin).
+    destruct nd; cbn in *; try assumption.
+    - rewrite Hargs. intro Hi. apply in_map_iff in Hi as (a & Ea & Ha). unfold new_name in Ea.
+      destruct (dget a kargs) eqn:E.
+      + subst. destruct (Hnew name (dget_In_snd _ _ _ E)) as [_ Hav']. unfold all_nodes in Hav'.
+        rewrite Forall_forall in Hav'. specialize (Hav' _ Hin). cbn in Hav'. congruence.
+      + subst. contradiction.
+    - now rewrite Hargs, map_length.
+    - rewrite Hargs. intro Hi. apply in_map_iff in Hi as (a & Ea & Ha). unfold new_name in Ea.
+      destruct (dget a kargs) eqn:E.
+      + subst. destruct (Hnew name (dget_In_snd _ _ _ E)) as [_ Hav']. unfold all_nodes in Hav'.
+        rewrite Forall_forall in Hav'. specialize (Hav' _ Hin). cbn in Hav'. congruence.
+      + subst. contradiction. }
+  rewrite (compile_sem cval ps' ctx tr actuals PO' W O' NF').
+  rewrite (compile_sem cval ps0 ctx tr actuals (conj Hav (conj Hid Hnd)) W O NF).
+  now rewrite Hargs, map_length.
+Qed.
